@@ -7,7 +7,7 @@ from pyvc.solve import relevant_facts, _syms
 import z3
 reg = C.load_all(); idx = RepoIndex()
 q = [k for k in reg if k.endswith(sys.argv[1])][0]
-eng, obs, cx, t = verify_function(idx, reg, q, pid=(sys.argv[3] if len(sys.argv)>3 else None))
+eng, obs, cx, t = verify_function(idx, reg, q, pid=((sys.argv[3] or None) if len(sys.argv)>3 and not sys.argv[3].startswith("--") else None))
 ob = [o for o in obs if sys.argv[2] in o.name][0]
 cache={}
 seeds=_syms(ob.hyp,cache)|_syms(ob.goal,cache)
@@ -30,3 +30,10 @@ for name, opts in [("default", {}), ("mbqi off", {"smt.mbqi": False}), ("both", 
     s=z3.Solver(); s.set('timeout',10000)
     for k,v in opts.items(): s.set(k,v)
     [s.add(f) for f in a]; s.add(ob.hyp); s.add(z3.Not(g)); t=time.time(); r=s.check(); print(name, r, round(time.time()-t,2), s.reason_unknown() if r==z3.unknown else "")
+if '--model' in sys.argv:
+    s=z3.Solver(); s.set('timeout',30000)
+    [s.add(f) for f in a]; s.add(ob.hyp); s.add(z3.Not(g)); print(s.check())
+    m=s.model()
+    for d in sorted(m.decls(), key=lambda d: d.name()):
+        if d.arity()==0: print("  ", d.name(), "=", m[d])
+        else: print("  ", d.name(), "=", str(m[d])[:300].replace("\n"," "))
